@@ -13,6 +13,7 @@ CHECKS = {
     "C03": ("harness.checks.core_props", "C03"),
     "C04": ("harness.checks.c04", "C04"),
     "C05": ("harness.checks.klass_props", "C05"),
+    "C06": ("harness.checks.schema_props", "C06"),
     "C07": ("harness.checks.klass_props", "C07"),
     "C08": ("harness.checks.klass_props", "C08"),
     "C09": ("harness.checks.klass_props", "C09"),
@@ -22,6 +23,7 @@ CHECKS = {
     "C13": ("harness.checks.sys_props", "C13"),
     "C14": ("harness.checks.sys_props", "C14"),
     "C15": ("harness.checks.sys_props", "C15"),
+    "C20": ("harness.checks.schema_props", "C20"),
 }
 
 
